@@ -12,6 +12,9 @@ open Aidl Aidl.Lr
 
 theorem ncols_pos : 0 < Driver.Parse.tables.ncols := by decide +kernel
 
+/-- every lexer entry maps to a terminal column (not to `error`) -/
+theorem cols_ok : Driver.Parse.tables.tokToCol.all (fun e => decide (e.2 < Driver.Parse.tables.ncols - 1)) = true := by decide +kernel
+
 theorem cert_ok : Cert.ok Driver.Parse.tables cert = true := by
   unfold Cert.ok
   rw [rows_ok, eof_ok, edges_ok, reds_ok]
